@@ -1133,6 +1133,48 @@ func (f *c17Funding) gen() *c17PairCase {
 		case 5:
 			sc.OfferLease = 0
 		}
+		// offer-vs-bid cube: for one compared term (or all of them) the offer's and the
+		// bid's value are drawn independently from {0, x, y} - in particular the zero
+		// value of one side against a non-zero value of the other
+		if rng.Intn(3) == 0 {
+			unitSat := int64(order.BaseSupplyUnit)
+			pushVals := []int64{0, unitSat, capSat}
+			if c.Units > 2 {
+				pushVals[1] = unitSat * int64(1+rng.Intn(int(c.Units)-1))
+			}
+			leaseVals := []uint32{0, 144, 2016, 4032}[0:3]
+			if rng.Intn(2) == 0 {
+				leaseVals = []uint32{0, 2016, 4032}
+			}
+			term := rng.Intn(4)
+			if term == 0 || term == 3 {
+				c.SelfBal, sc.OfferPush = pushVals[rng.Intn(3)], pushVals[rng.Intn(3)]
+			} else {
+				sc.OfferPush = c.SelfBal
+			}
+			if term == 1 || term == 3 {
+				c.Lease, sc.OfferLease = leaseVals[rng.Intn(3)], leaseVals[rng.Intn(3)]
+			} else {
+				sc.OfferLease = c.Lease
+			}
+			if term == 2 || term == 3 {
+				c.Unann, sc.OfferUnann = rng.Intn(2) == 0, rng.Intn(2) == 0
+				c.ZC, sc.OfferZC = rng.Intn(2) == 0, rng.Intn(2) == 0
+			} else {
+				sc.OfferUnann, sc.OfferZC = c.Unann, c.ZC
+			}
+			sc.OfferCap = capSat
+			c.BidChanType = 0
+			f.r.Count("sidecar/cube")
+			switch {
+			case (sc.OfferPush == 0) != (c.SelfBal == 0):
+				f.r.Count("sidecar/cube/push-zero-vs-nonzero")
+			case (sc.OfferLease == 0) != (c.Lease == 0):
+				f.r.Count("sidecar/cube/lease-zero-vs-nonzero")
+			case sc.OfferUnann != c.Unann || sc.OfferZC != c.ZC:
+				f.r.Count("sidecar/cube/flag-differs")
+			}
+		}
 		// the bid's own amount / min units against the offered capacity: only one of them off
 		switch rng.Intn(dev * 8) {
 		case 0:
